@@ -102,8 +102,10 @@ Proof. exact values_within. Qed.
 Print Assumptions C14_within.
 
 (** Limits: the declared range of the (first) intensity / colour record's data
-    type unless a setter call overrides them; the last override is stored as given,
-    complete or not ([body_ilim] / [body_clim]). *)
+    type unless a setter call overrides them; the last override is stored as given
+    ([body_ilim] / [body_clim]) - it is complete, because [finalize] returned Ok (see
+    [C14_incomplete_override_rejected]); default limits may be incomplete (a float
+    attribute without declared range) and are then not written by the XML generator. *)
 Theorem C14_limits : forall (gen_xml : file_meta -> res (list N)) (lib_version : xstring),
   (forall m, gen_xml m <> Panic) ->
   forall st l guid proto body l' st' rs,
@@ -128,3 +130,12 @@ Theorem C14_limits : forall (gen_xml : file_meta -> res (list N)) (lib_version :
                       end).
 Proof. exact session_limits. Qed.
 Print Assumptions C14_limits.
+
+(** Limits set by the caller that lack a member make [finalize] fail with Invalid:
+    nothing is pushed, the writer state and the stream are unchanged. *)
+Theorem C14_incomplete_override_rejected : forall (gen_xml : file_meta -> res (list N)) (lib_version : xstring) st l ps,
+  ws_open st = true -> ws_sub st = SubPc ps -> ps_finalized ps = false ->
+  custom_limits_ok (ps_custom_il ps) (ps_custom_cl ps) (ps_desc ps) = false ->
+  wrun_spec (wapi_step gen_xml lib_version st PcFinalize) l = (l, Ok (st, CrErr EInvalid)).
+Proof. exact incomplete_override_rejected. Qed.
+Print Assumptions C14_incomplete_override_rejected.
